@@ -127,9 +127,91 @@ class _Desugar(ast.NodeTransformer):
         return node
 
 
+def _dotted(e):
+    parts = []
+    while isinstance(e, ast.Attribute):
+        parts.append(e.attr)
+        e = e.value
+    if isinstance(e, ast.Name):
+        return ".".join([e.id] + parts[::-1])
+    return None
+
+
+class _Functional(ast.NodeTransformer):
+    """map / starmap / operator.attrgetter & co. spelled as the generator expressions they are:
+        map(f, X)                      -> (f(v) for v in X)
+        map(lambda v: E, X)            -> (E for v in X)
+        map(attrgetter('a'), X)        -> (v.a for v in X)        itemgetter(i) -> v[i]      methodcaller('m', *a) -> v.m(*a)
+        starmap(f, X)                  -> (f(*v) for v in X)
+    and  with suppress(E): BODY  ->  try: BODY except E: pass"""
+
+    def __init__(self):
+        self.n = 0
+
+    def _var(self):
+        self.n += 1
+        return f"map__v{self.n}"
+
+    def _apply(self, f, v, star=False):
+        d = _dotted(f.func) if isinstance(f, ast.Call) else None
+        V = lambda: ast.Name(id=v, ctx=ast.Load())  # noqa: E731
+        if not star and d in ("attrgetter", "operator.attrgetter") and len(f.args) == 1 and isinstance(f.args[0], ast.Constant) \
+                and isinstance(f.args[0].value, str) and f.args[0].value.isidentifier():
+            return ast.Attribute(value=V(), attr=f.args[0].value, ctx=ast.Load())
+        if not star and d in ("itemgetter", "operator.itemgetter") and len(f.args) == 1:
+            return ast.Subscript(value=V(), slice=f.args[0], ctx=ast.Load())
+        if not star and d in ("methodcaller", "operator.methodcaller") and f.args and isinstance(f.args[0], ast.Constant) and isinstance(f.args[0].value, str):
+            return ast.Call(func=ast.Attribute(value=V(), attr=f.args[0].value, ctx=ast.Load()), args=f.args[1:], keywords=f.keywords)
+        if not star and isinstance(f, ast.Lambda) and len(f.args.args) == 1 and not (f.args.vararg or f.args.kwarg or f.args.kwonlyargs or f.args.defaults):
+            p = f.args.args[0].arg
+
+            class R(ast.NodeTransformer):
+                def visit_Name(self, n):
+                    return ast.copy_location(ast.Name(id=v, ctx=n.ctx), n) if n.id == p else n
+
+                def visit_Lambda(self, n):
+                    return n
+
+            return R().visit(copy.deepcopy(f.body))
+        if isinstance(f, (ast.Name, ast.Attribute)):
+            arg = ast.Starred(value=V(), ctx=ast.Load()) if star else V()
+            return ast.Call(func=f, args=[arg], keywords=[])
+        return None
+
+    def visit_Call(self, node):
+        self.generic_visit(node)
+        d = _dotted(node.func)
+        if d == "map" and len(node.args) == 2 and not node.keywords:
+            v = self._var()
+            elt = self._apply(node.args[0], v)
+            if elt is not None:
+                return ast.copy_location(ast.GeneratorExp(elt=elt, generators=[ast.comprehension(
+                    target=ast.Name(id=v, ctx=ast.Store()), iter=node.args[1], ifs=[], is_async=0)]), node)
+        if d in ("starmap", "itertools.starmap") and len(node.args) == 2 and not node.keywords:
+            v = self._var()
+            elt = self._apply(node.args[0], v, star=True)
+            if elt is not None:
+                return ast.copy_location(ast.GeneratorExp(elt=elt, generators=[ast.comprehension(
+                    target=ast.Name(id=v, ctx=ast.Store()), iter=node.args[1], ifs=[], is_async=0)]), node)
+        return node
+
+    def visit_With(self, node):
+        self.generic_visit(node)
+        if len(node.items) == 1 and node.items[0].optional_vars is None and isinstance(node.items[0].context_expr, ast.Call) \
+                and _dotted(node.items[0].context_expr.func) in ("suppress", "contextlib.suppress") and node.items[0].context_expr.args \
+                and not node.items[0].context_expr.keywords:
+            excs = node.items[0].context_expr.args
+            typ = excs[0] if len(excs) == 1 else ast.Tuple(elts=list(excs), ctx=ast.Load())
+            h = ast.ExceptHandler(type=typ, name=None, body=[ast.Pass()])
+            return ast.copy_location(ast.Try(body=node.body, handlers=[h], orelse=[], finalbody=[]), node)
+        return node
+
+
 def desugar(tree):
-    if not any(isinstance(n, (ast.Match, ast.NamedExpr)) for n in ast.walk(tree)):
-        return tree
-    tree = _Desugar().visit(tree)
+    if any(isinstance(n, (ast.Match, ast.NamedExpr)) for n in ast.walk(tree)):
+        tree = _Desugar().visit(tree)
+    names = {_dotted(n.func) for n in ast.walk(tree) if isinstance(n, ast.Call)}
+    if names & {"map", "starmap", "itertools.starmap", "suppress", "contextlib.suppress"}:
+        tree = _Functional().visit(tree)
     ast.fix_missing_locations(tree)
     return tree
